@@ -308,3 +308,15 @@ def witness_classes(line, cfg):
 
 def is_lazy_cpu(cfg):
     return "cpu/optim:Full" not in cfg and "cpu/optim:TI" not in cfg
+
+
+def build_harness(ctx):
+    """the shared harness; with VERIF_FLUID_FIXED=1 a variant in which the member functions changed by
+    props/C19/proposed_fix.diff (Action / network part) are interposed by their patched versions (sanity runs only)"""
+    import os
+    src = os.path.join(os.path.dirname(os.path.abspath(__file__)), "fluid_harness.cpp")
+    if os.environ.get("VERIF_FLUID_FIXED"):
+        ctx.notes.append("VERIF_FLUID_FIXED: harness interposes the patched Action/NetworkCm02Link functions")
+        return ctx.build_harness(src, name="fluid_harness_fixed", flags=("-DFLUID_FIXED", "-fno-access-control", "-rdynamic",
+                                                                         "-I" + os.path.dirname(src)))
+    return ctx.build_harness(src, name="fluid_harness")
